@@ -44,7 +44,9 @@ func Merc(this *SR) (forward, inverse Transformer, err error) {
 	// Mercator forward equations--mapping lat,long to x,y
 	forward = func(lon, lat float64) (x, y float64, err error) {
 		// convert to radians
-		if math.IsNaN(lat) || math.IsNaN(lon) || lat*r2d > 90 || lat*r2d < -90 || lon*r2d > 180 || lon*r2d < -180 {
+		// (sPi, as in adjust_lon: a longitude on the antimeridian comes back
+		// from the inverse, or from a prime-meridian shift, a few ulps beyond pi)
+		if math.IsNaN(lat) || math.IsNaN(lon) || lat*r2d > 90 || lat*r2d < -90 || math.Abs(lon) > sPi {
 			err = fmt.Errorf("in proj.Merc forward: invalid longitude (%g) or latitude (%g)", lon, lat)
 			return
 		}
